@@ -170,3 +170,31 @@ func init() {
 		return ratio > 50, fmt.Sprintf("MarshalIndent of a 400-deep map chain: %d bytes of output, %d bytes allocated (%.0fx; encoding/json needs about 6x)", len(out), m1.TotalAlloc-m0.TotalAlloc, ratio)
 	}
 }
+
+type wInB struct {
+	B bool
+	A []uint8
+}
+
+type wEmbOmit struct {
+	*wInB `json:",omitempty"`
+	X     int
+}
+
+type wSemi struct {
+	A int `json:"a;b"`
+	B int `json:"c;d,omitempty"`
+}
+
+func init() {
+	Witnesses["FX-ENC-embedded-omitempty-invalid-json"] = func() (bool, string) {
+		return differs(wEmbOmit{wInB: &wInB{B: true}, X: 1})
+	}
+	Witnesses["FX-ENC-tag-name-semicolon"] = func() (bool, string) {
+		d1, m1 := differs(wSemi{A: 1, B: 2})
+		var a, b wSemi
+		e1 := stdjson.Unmarshal([]byte(`{"a;b":3,"c;d":4}`), &a)
+		e2 := gojson.Unmarshal([]byte(`{"a;b":3,"c;d":4}`), &b)
+		return d1 || e1 != nil || e2 != nil || a != b, m1 + fmt.Sprintf(" | decode: std %+v go-json %+v", a, b)
+	}
+}
